@@ -30,7 +30,7 @@ def tlc_jobs(wd, thorough):
         # quick: the broadcast representations (mean batch != covariance batch) over dims {2} only; size-1 dimensions of the
         # plain representations stay in
         mod, cfg = write_ops(os.path.join(wd, "mc"), name, "both", bcast, (1, 2) if thorough or not bcast else (2,), variant)
-        jobs.append(((mod, cfg), dict(name=PID + "/ops_" + name, timeout=1800, dump=(variant == "pinned"), check=False, workers=2, heap="3g", extra=["-continue"])))
+        jobs.append(((mod, cfg), dict(name=PID + "/ops_" + name, timeout=1800, dump=(variant == "pinned"), check=False, workers=2, heap="2g", extra=["-continue"])))
         meta.append(dict(bcast=bcast, name=name, variant=variant))
     return jobs, meta
 
@@ -73,6 +73,12 @@ def make_params(torch, n, mb, cb, rep, seed):
         R = torch.cat([torch.eye(n, dtype=torch.float64).expand(*cb, n, n), torch.zeros(*cb, n, 1, dtype=torch.float64)], -1) \
             + 0.35 * torch.randn(*cb, n, k, generator=gen, dtype=torch.float64)
         C = R @ R.transpose(-1, -2)
+    elif rep.startswith("root-"):
+        # root form with a SQUARE root of the given kind (MVNReads.tla, Reps): R R^T = C whatever the kind is
+        from checks import c10_reads
+        A = torch.randn(*cb, n, n, generator=gen, dtype=torch.float64)
+        R = c10_reads.square_root_of(torch, A @ A.transpose(-1, -2) / n + torch.eye(n, dtype=torch.float64), rep[len("root-"):], gen)
+        C = R @ R.transpose(-1, -2)
     else:
         A = torch.randn(*cb, n, n, generator=gen, dtype=torch.float64)
         C = A @ A.transpose(-1, -2) / n + torch.eye(n, dtype=torch.float64)
@@ -97,6 +103,7 @@ def construct(torch, mean, C, R, rep):
     return MultivariateNormal(mean.clone(), cov)
 
 
+ROOT_KINDS = ("sym", "rot", "upper", "lower")        # kinds of square root of a root-form covariance
 SPELLINGS = {0: "int", 1: "float", 2: "tensor0", 3: "bool", 4: "numpy", 5: "omitted"}
 SCALAR_OPS = ("add_scalar", "radd_scalar", "mul", "div", "rmul", "add_jitter")
 
@@ -244,7 +251,7 @@ def _numeric_worker(item):
     if want("rsample", []):
         d = fresh()
         ok, k = core.guarded(lambda: tuple(d.base_sample_shape))
-        kk = (n + 1) if rep == "root" else n
+        kk = R.shape[-1] if R is not None else n
         if not ok or k != (kk,):
             emit("rsample", rel + "/base_sample_shape", False, "base_sample_shape is %s, expected %s" % (k, [kk]), [])
         else:
@@ -478,9 +485,17 @@ def run(ck, meta, results):
                                      optional=bool(c["optional"]), degenerate=bool(c["degenerate"])))
     check_alphabet(ck, configs)
     items = []
+    nlazy = 0
     for (mb, cb, lazy), e in sorted(configs.items()):
-        for rep in (("lazy", "diag", "root") if lazy else ("dense",)):
+        # root form: the n x (n+1) root everywhere, and one kind of SQUARE root per configuration in rotation (every kind on
+        # every configuration in the thorough tier); MVNReads.tla runs every kind against every Cholesky-path quantity
+        nk = len(ROOT_KINDS)
+        nlazy += 1 if lazy else 0
+        kinds = tuple(ROOT_KINDS[(2 * nlazy + j) % nk] for j in range(2)) if thorough else (ROOT_KINDS[nlazy % nk],)
+        for rep in (("lazy", "diag", "root") + tuple("root-" + k for k in kinds) if lazy else ("dense",)):
             for n in ((1, 2, 3) if thorough else (3, 1)):
+                if rep.startswith("root-") and n != 3:
+                    continue            # (the kinds differ from n = 2 on; one size keeps the tier's cost)
                 seed = ck.seed * 100003 + 31 * len(items) + 1
                 items.append(dict(n=n, mb=list(mb), cb=list(cb), rep=rep, seed=seed, vbs=sorted(e["vbs"]), ops=sorted(e["ops"], key=repr)))
     res = core.pmap(_numeric_worker, items, chunksize=1)
